@@ -1,5 +1,5 @@
 ------------------------------ MODULE MCLockFin ------------------------------
 EXTENDS LockFin, Json
 Emit == (pc # "idle" /\ pc' = "idle") => PrintT(<<"TRACE", ToJson(hist')>>)
-AllLocks == {"entry", "noentry", "nolock"}
+AllLocks == {"entry", "entryfirst", "entryonly", "noentry", "nolock"}
 =============================================================================
